@@ -20,6 +20,34 @@ class QR:
 
 
 def qr_eval(s, nsym, k, rlo, rhi):
+    def list_len(l):
+        """number of elements of a list expression built from displays, concatenation and the numpy chunking idiom"""
+        if l[0] == "cat":
+            tot = QR(0, 0, 0)
+            for part in l[1]:
+                v = list_len(part)
+                tot = QR(tot.a + v.a, tot.lo + v.lo, tot.hi + v.hi)
+            return tot
+        if l[0] == "list":
+            if any(i[0] == "star" for i in l[1]):
+                raise Unk("starred display")
+            return QR(0, len(l[1]), len(l[1]))
+        # np.reshape(np.split(arr, [cut])[0], (-1, w)).tolist() has cut / w rows (arr one-dimensional)
+        NP = ("glob", "np")
+        if l[0] == "call" and l[1][0] == "attr" and l[1][2] == "tolist" and not l[2]:
+            h = l[1][1]
+            if h[0] == "call" and h[1] == ("attr", NP, "reshape") and len(h[2]) == 2:
+                src, shape = h[2]
+                if shape[0] == "tuple" and len(shape[1]) == 2 and shape[1][0] == ("c", -1) and is_const(shape[1][1]) and \
+                        src[0] == "sub" and src[2] == ("c", 0) and src[1][0] == "call" and src[1][1] == ("attr", NP, "split") and \
+                        len(src[1][2]) == 2 and src[1][2][1][0] == "list" and len(src[1][2][1][1]) == 1:
+                    w = shape[1][1][1]
+                    c = ev(src[1][2][1][1][0])
+                    if isinstance(w, int) and w > 0 and (c.a / w).denominator == 1 and c.lo == c.hi and (c.lo / w).denominator == 1:
+                        return QR(c.a / w, c.lo / w, c.hi / w)
+                    raise Unk("rows of reshape not integral")
+        raise Unk("len() of unrecognised list expression")
+
     def ev(x):
         if x == nsym:
             return QR(k, rlo, rhi)
@@ -91,6 +119,8 @@ def qr_eval(s, nsym, k, rlo, rhi):
                 if a.a == 0 and (a.lo > 0 or a.hi < 0):
                     return QR(0, 1, 1, True)
                 raise Unk("bool() undetermined")
+            if f == ("glob", "len") and len(x[2]) == 1:
+                return list_len(x[2][0])
             if f == ("glob", "divmod"):
                 raise Unk("divmod")
             raise Unk("call %r" % (f,))
